@@ -40,8 +40,7 @@ theorem c03_src_allOf_first_refusal (f : A → Option Err) (xs : List A) :
   | nil => simp [Src.AllOf.Matches_loop, Go.pure]
   | cons a xs ih =>
     unfold Src.AllOf.Matches_loop
-    cases h : f a <;> simp [look, Go.bind, Go.pure, h, List.findSome?] at ih ⊢
-    exact ih
+    cases h : f a <;> simp_all [look, Go.bind, Go.pure, Go.cond_app, List.findSome?]
 
 /-- **`compositeMatcher.Matches` accepts iff every condition accepts.** -/
 theorem c03_src_allOf_accepts_iff_all (f : A → Option Err) (xs : List A) :
@@ -53,52 +52,39 @@ theorem c03_src_allOf_accepts_iff_all (f : A → Option Err) (xs : List A) :
   | nil => simp
   | cons a xs ih => cases h : f a <;> simp [List.findSome?, h, ih]
 
-/-- The loop of `anyOfMatcher.Matches` with `err` holding the refusal of the previous element. -/
+/-- The loop of `anyOfMatcher.Matches` with `err` holding the refusal of the previous element: it returns, and it
+accepts iff some element still to come accepts (or nothing is left and the previous refusal is none). -/
 theorem c03_src_anyOf_loop (f : A → Option Err) (n : Int) (xs : List A) (err : Option Err) :
-    Src.AnyOf.Matches_loop (look f) () n xs err ()
-      = .done (if xs.any (fun a => (f a).isNone) then none else (xs.getLast?.bind f).or err) () := by
+    ∃ r, Src.AnyOf.Matches_loop (look f) () n xs err () = .done r () ∧
+      r.isNone = (xs.any (fun a => (f a).isNone) || (xs.isEmpty && err.isNone)) := by
   induction xs generalizing err with
-  | nil => simp [Src.AnyOf.Matches_loop, Go.pure]
+  | nil => exact ⟨err, by simp [Src.AnyOf.Matches_loop, Go.pure], by simp⟩
   | cons a xs ih =>
     unfold Src.AnyOf.Matches_loop
     cases h : f a with
-    | none => simp [look, Go.bind, Go.pure, h]
+    | none => exact ⟨none, by simp [look, Go.bind, Go.pure, Go.cond_app, h], by simp [h]⟩
     | some e =>
-      simp only [look, Go.bind, Go.pure, h, Option.isNone_some, cond_false, ih, List.any_cons, Bool.false_or]
-      cases hx : xs with
-      | nil => simp [h]
-      | cons b ys =>
-        by_cases hany : (b :: ys).any (fun a => (f a).isNone) = true
-        · simp [hany]
-        · simp only [hany]
-          have hlast : ((b :: ys).getLast?.bind f).isSome = true := by
-            have hmem : (b :: ys).getLast (by simp) ∈ (b :: ys) := List.getLast_mem _
-            have : (f ((b :: ys).getLast (by simp))).isNone = false := by
-              have := hany
-              simp only [List.any_eq_true, not_exists, not_and, Bool.not_eq_true] at this
-              exact this _ hmem
-            rw [List.getLast?_eq_some_getLast (by simp)]
-            cases hf : f ((b :: ys).getLast (by simp)) <;> simp_all
-          have h2 : (a :: b :: ys).getLast? = (b :: ys).getLast? := by simp [List.getLast?_cons_cons]
-          rw [h2]
-          cases hl : (b :: ys).getLast?.bind f <;> simp_all
+      obtain ⟨r, hr, hn⟩ := ih (some e)
+      exact ⟨r, by simp [look, Go.bind, Go.pure, Go.cond_app, h, hr], by simp [h, hn]⟩
+
+/-- `anyOfMatcher.Matches` returns (no panic of its own) and **accepts iff it is empty or some element accepts**. -/
+theorem c03_src_anyOf_returns (f : A → Option Err) (xs : List A) :
+    ∃ r, Src.AnyOf.Matches (look f) () xs () = .done r () ∧
+      r.isNone = (xs.isEmpty || xs.any fun a => (f a).isNone) := by
+  cases xs with
+  | nil => exact ⟨none, by simp [Src.AnyOf.Matches, Src.AnyOf.Matches_loop, Go.pure, Go.cond_app], by simp⟩
+  | cons a xs =>
+    unfold Src.AnyOf.Matches
+    generalize hN : ((a :: xs).length : Int) = N
+    have hN0 : ¬ (N = 0) := by simp at hN; omega
+    obtain ⟨r, hr, hn⟩ := c03_src_anyOf_loop f N (a :: xs) none
+    exact ⟨r, by simp [hr, hN0, Go.pure, Go.cond_app], by simp [hn]⟩
 
 /-- **`anyOfMatcher.Matches` accepts iff it is empty or some element accepts**, for lists of any length. -/
 theorem c03_src_anyOf_accepts_iff_any (f : A → Option Err) (xs : List A) :
     accepts (Src.AnyOf.Matches (look f) () xs) = some (xs.isEmpty || xs.any fun a => (f a).isNone) := by
-  unfold accepts Src.AnyOf.Matches
-  simp only [c03_src_anyOf_loop]
-  cases xs with
-  | nil => simp
-  | cons a xs =>
-    by_cases hany : (a :: xs).any (fun a => (f a).isNone) = true
-    · simp [hany]
-    · have hany' := hany
-      simp only [List.any_eq_true, not_exists, not_and, Bool.not_eq_true] at hany'
-      have hmem : (a :: xs).getLast (by simp) ∈ (a :: xs) := List.getLast_mem _
-      have := hany' _ hmem
-      rw [if_neg hany, List.getLast?_eq_some_getLast (by simp)]
-      cases hf : f ((a :: xs).getLast (by simp)) <;> simp_all
+  obtain ⟨r, hr, hn⟩ := c03_src_anyOf_returns f xs
+  simp [accepts, hr, hn]
 
 /-- **No condition behind the first refusal is asked**: with conditions that log their being asked into the context,
 `compositeMatcher.Matches` leaves exactly the conditions up to and including the first refusing one in the log. -/
@@ -113,9 +99,10 @@ theorem c03_src_allOf_asks_prefix (f : A → Option Err) (xs : List A) (log : Li
   | cons a xs ih =>
     unfold Src.AllOf.Matches_loop
     cases h : f a with
-    | some e => simp [Go.bind, Go.pure, h, List.findSome?, List.findIdx?_cons]
+    | some e => simp [Go.bind, Go.pure, Go.cond_app, h, List.findSome?, List.findIdx?_cons]
     | none =>
-      simp only [Go.bind, h, Option.isSome_none, cond_false, ih, List.findSome?, List.findIdx?_cons]
+      simp only [Go.bind, Go.cond_app, h, Option.isSome_none, Option.isNone_none, cond_false, cond_true, ih,
+        List.findSome?, List.findIdx?_cons]
       cases hi : xs.findIdx? (fun a => (f a).isSome) <;> simp [hi]
 
 /-- **A panicking condition is not swallowed**: when the conditions before it accept, the panic of a condition leaves
@@ -134,8 +121,8 @@ theorem c03_src_allOf_panic_propagates {PV : Type} [DecidableEq A] (f : A → Op
   | cons a pre ih =>
     have hne : a ≠ bad := fun h => hb (by simp [h])
     have ha : f a = none := hpre a (by simp)
-    simp only [List.cons_append, Src.AllOf.Matches_loop, Go.bind, hne, if_false, Go.pure, ha, Option.isSome_none,
-      cond_false]
+    simp only [List.cons_append, Src.AllOf.Matches_loop, Go.bind, Go.cond_app, hne, if_false, Go.pure, ha,
+      Option.isSome_none, Option.isNone_none, cond_false, cond_true]
     exact ih (fun x hx => hpre x (by simp [hx])) (fun h => hb (by simp [h]))
 
 end Generic
@@ -268,7 +255,7 @@ theorem c03_src_route (r : RouteM) (q : ReqView) (keys caps : List String) (hlen
     all_goals exact ⟨_, rfl⟩
   have hh' : ∃ e, Src.AnyOf.Matches (hostSrc q) () r.hosts () = .done e () := by
     have hfun := hostSrc_look q
-    rw [hfun]; unfold Src.AnyOf.Matches; exact ⟨_, c03_src_anyOf_loop _ _ _ _⟩
+    rw [hfun]; obtain ⟨r, hr, _⟩ := c03_src_anyOf_returns (hostRes q) r.hosts; exact ⟨r, hr⟩
   have hp' : ∃ e, Src.AllOf.Matches (ppSrc r.esh q keys caps) () r.pps () = .done e () := by
     have hfun : ppSrc r.esh q keys caps = look (fun pp => resOf (ppSrc r.esh q keys caps pp)) := by
       funext pp u
